@@ -92,7 +92,7 @@ def round_table(rnd):
 def main():
     p = os.path.join(V, "DESIGN.md")
     s = open(p).read()
-    for tag, fn in (("SEEDED", seeded_table), ("REFACTORS", refactor_table), ("KNOWN", known_table), ("ROUND2", lambda: round_table(2)), ("ROUND3", lambda: round_table(3)), ("ROUND4", lambda: round_table(4))):
+    for tag, fn in (("SEEDED", seeded_table), ("REFACTORS", refactor_table), ("KNOWN", known_table), ("ROUND2", lambda: round_table(2)), ("ROUND3", lambda: round_table(3)), ("ROUND4", lambda: round_table(4)), ("ROUND5", lambda: round_table(5))):
         a, b = "<!-- AUTOGEN:%s:BEGIN -->" % tag, "<!-- AUTOGEN:%s:END -->" % tag
         if a in s and b in s:
             i, j = s.index(a) + len(a), s.index(b)
